@@ -8,7 +8,7 @@ from ..exceptions import (
     CustomContentError, InvalidValueError, PropertyPresenceError,
 )
 from ..markings import _MarkingsMixin
-from ..markings.utils import check_tlp_marking
+from ..markings.utils import check_not_marked_with_itself, check_tlp_marking
 from ..properties import (
     BooleanProperty, DictionaryProperty, EnumProperty, ExtensionsProperty,
     HashesProperty, IDProperty, IntegerProperty, ListProperty, Property,
@@ -247,6 +247,7 @@ class MarkingDefinition(_STIXBase21, _MarkingsMixin):
                 MarkingDefinition,
             )
 
+        check_not_marked_with_itself(self)
         check_tlp_marking(self, '2.1')
 
     def serialize(self, pretty=False, include_optional_defaults=False, **kwargs):
